@@ -1,12 +1,15 @@
 /-
   C07 — A graph that compiles cannot hit a type mismatch between concretely typed nodes.
   Property theorems.  Models: EinoV/Model/C20Builder.lean (builder, shared with C20),
-  EinoV/Model/C07.lean (run).  Source facts: EinoV/Gen/FactsC07.lean.
+  EinoV/Model/C07.lean (run), EinoV/Model/C20Wf.lean + EinoV/Model/C07Wf.lean (Workflow
+  declarations, their replay at Compile, DAG runs).  Source facts: EinoV/Gen/FactsC07.lean.
 -/
 import EinoV.Model.C20Builder
 import EinoV.Model.C07
 import EinoV.Model.C07Types
+import EinoV.Model.C07Wf
 import EinoV.Proofs.C07
+import EinoV.Proofs.C07Wf
 import EinoV.Proofs.C20Ends
 import EinoV.Gen.FactsC07
 import EinoV.Expected.C07
@@ -24,12 +27,14 @@ def srcFacts : Facts :=
 /-- Source fact tie: addBranch types a pass-through start node only while its type is
     unknown and then runs the work list; checkAssignable is the decision list the model
     transcribes; updateToValidateMap infers only into unknown types; both `may` sites install
-    the run-time converter. -/
+    the run-time converter; addBranch checks the condition type before it looks at `skipData`
+    (the model's `addBranchBody` does: a Workflow branch is checked like any other). -/
 theorem facts_match :
     srcFacts = Expected.C20.facts ∧
     FactsC07.checkAssignableShape = Expected.C07.checkAssignableShape ∧
     FactsC07.updateInferConds = Expected.C07.updateInferConds ∧
-    FactsC07.branchMayInstallsConverter = true ∧ FactsC07.edgeMayInstallsConverter = true := by
+    FactsC07.branchMayInstallsConverter = true ∧ FactsC07.edgeMayInstallsConverter = true ∧
+    FactsC07.branchCheckedWithoutData = true := by
   decide
 
 /-! ## the assignability table -/
@@ -239,6 +244,229 @@ theorem unpropagated_branch_order_dependent :
       (fun r => runGraph menuImpl r { body := fun _ d => d, pick := fun _ _ _ => "" } 20 1)
     go Ord.id = [.panic] ∧ go revOrd = [.typeErr] := by
   decide
+
+/-! ## Workflows: branches without data flow, control-only and data-only inputs, DAG runs -/
+
+/-- what a Workflow is evaluated with: the facts read off the source, either placement of the
+    entry / exit bookkeeping, any `implements` relation, any map iteration order -/
+def wfEnv (inCtl : Bool) (im : Impl) (ord : Ord) : Env := { f := srcFacts, inCtl, im, ord }
+
+/-- **workflow_branch_mismatch_rejected.** The compile-time clause for branch conditions does
+    not depend on whether the branch carries data: when `checkAssignable` says that the
+    condition's input type can never take what the start node produces (in particular: two
+    different concrete types), `addBranch` refuses the branch – for a Graph / Chain branch
+    (`skipData = false`) and for the branch of a Workflow (`skipData = true`, replayed by
+    `Workflow.compile`) alike, and with the same error. -/
+theorem workflow_branch_mismatch_rejected (im : Impl) (ord : Ord) (b : Builder) (s : Key) (t : Ty)
+    (ends : List Key)
+    (hmis : checkAssignable im ((branchStartTyped srcFacts b s t).nodeOut s) (some t) = .mustNot) :
+    (∀ skip, (addBranch srcFacts im ord b s t ends skip).2 ≠ .ok) ∧
+    (b.buildError = none → b.compiled = false → s ≠ END → (b.hasNode s = true ∨ s = START) →
+      ends.length ≠ 1 → ∀ skip, (addBranch srcFacts im ord b s t ends skip).2 = .fresh .branchMismatch) := by
+  constructor
+  · intro skip
+    have hbody : ∃ k, addBranchBody srcFacts im ord b s t ends skip = .error k := by
+      by_cases h1 : s = END
+      · exact ⟨.endAsStart, by simp [addBranchBody, h1]⟩
+      · by_cases h2 : (!b.hasNode s && s != START) = true
+        · exact ⟨.branchUnknownStart, by simp only [addBranchBody, h1, ↓reduceIte, h2]⟩
+        · by_cases h3 : ends.length = 1
+          · exact ⟨.branchSingle, by simp only [addBranchBody, h1, ↓reduceIte, h2, h3]; simp⟩
+          · exact ⟨.branchMismatch, (addBranchBody_mismatch_iff srcFacts im ord b s t ends skip).mpr ⟨h1, h2, h3, hmis⟩⟩
+    obtain ⟨k, hk⟩ := hbody
+    unfold addBranch guarded
+    rw [hk]
+    split
+    · simp
+    · split
+      · simp
+      · simp
+  · intro hbe hcomp h1 hn h3 skip
+    have h2 : ¬ (!b.hasNode s && s != START) = true := by
+      rcases hn with hn | hn
+      · simp [hn]
+      · simp [hn]
+    have hk := (addBranchBody_mismatch_iff srcFacts im ord b s t ends skip).mpr ⟨h1, h2, h3, hmis⟩
+    unfold addBranch guarded
+    rw [hk]
+    simp [hbe, hcomp]
+
+/-- between two concrete types the check of the previous theorem is the identity test: a
+    Workflow branch whose condition is declared on `conc c` while its start node is declared
+    to produce `conc a ≠ conc c` is refused. -/
+theorem workflow_concrete_branch_rejected (im : Impl) (ord : Ord) (b : Builder) (s : Key) (a c : Nat)
+    (ends : List Key) (hne : a ≠ c) (hout : (branchStartTyped srcFacts b s (.conc c)).nodeOut s = some (.conc a)) :
+    (addBranch srcFacts im ord b s (.conc c) ends true).2 ≠ .ok := by
+  apply (workflow_branch_mismatch_rejected im ord b s (.conc c) ends ?_).1 true
+  rw [hout, (concrete_table im a c).1]
+  simp [hne]
+
+/-- **workflow_compiled_sound.** For every Workflow – nodes with any types, AddInput,
+    AddDependency, data-only inputs, branches with any end nodes, inputs of END, in any order;
+    no field mappings, no sub-graph nodes looked into – every `implements` relation and every Go
+    map iteration order: the runnable its Compile hands out has all data connections and all
+    branch conditions validated – assignable for sure, or possibly assignable *with* the
+    run-time check installed. -/
+theorem workflow_compiled_sound (inCtl ec : Bool) (im : Impl) (ord : Ord) (hv : ord.Valid)
+    (d : WfDecl) (hu : d.unmapped = true) (co : COpts) (w : WRunner)
+    (h : (wfCompile (wfEnv inCtl im ord) ec d co).2 = some w) : SoundRunner im w.r :=
+  wfCompile_sound (wfEnv inCtl im ord) (show srcFacts.branchGuarded = true by decide)
+    (show srcFacts.branchPropagates = true by decide) hv ec d hu co w h
+
+/-- …and what `wfCompile` answers is what the declaration layer of C20 answers for the first
+    Compile of the lowered Workflow (`WfDecl.lower`: branches replayed with `skipData`, then the
+    recorded inputs). -/
+theorem workflow_compile_is_lowering (E : Env) (ec : Bool) (d : WfDecl) (co : COpts) (hp : d.plain = true) :
+    (wfCompile E ec d co).1 = Decl.first E (d.lower ec) co :=
+  wfCompile_eq_first E ec d co hp
+
+/-- a branch condition of a compiled Workflow whose type and whose start node's output type
+    are both concrete is declared on that very type. -/
+theorem workflow_concrete_branch_equal (inCtl ec : Bool) (im : Impl) (ord : Ord) (hv : ord.Valid)
+    (d : WfDecl) (hu : d.unmapped = true) (co : COpts) (w : WRunner)
+    (h : (wfCompile (wfEnv inCtl im ord) ec d co).2 = some w)
+    (p : Nat × BranchRec × Bool) (hp : p ∈ w.r.branchTable) (a c : Nat)
+    (ha : w.r.outOf p.2.1.src = some (.conc a)) (hc : p.2.1.inTy = .conc c) : a = c := by
+  have hs := ((workflow_compiled_sound inCtl ec im ord hv d hu co w h).br _ (mem_branchTable hp)).1
+  unfold SoundBrR at hs
+  rw [ha, hc, (concrete_table im a c).1] at hs
+  by_cases hac : a = c
+  · exact hac
+  · simp [hac] at hs
+
+/-- **workflow_run_no_type_panic.** No Invoke and no Stream run of such a runnable – whatever
+    the node bodies return within their declared output types, whatever the conditions choose,
+    whichever nodes get skipped, whatever the dynamic type of the input – reaches a failing
+    type assertion of a node, a branch condition or the final output. -/
+theorem workflow_run_no_type_panic (inCtl ec : Bool) (im : Impl) (ht : ImplTrans im) (ord : Ord) (hv : ord.Valid)
+    (d : WfDecl) (hu : d.unmapped = true) (co : COpts) (w : WRunner)
+    (h : (wfCompile (wfEnv inCtl im ord) ec d co).2 = some w)
+    (mode : Mode) (c : Code) (hc : CodeOk im w.r c) (fuel : Nat) (d0 : Dyn) (hd : dynOk im d0 w.r.inT = true) :
+    (wfRun mode im w c fuel d0).1 ≠ .panic :=
+  wfRun_no_panic ht (workflow_compiled_sound inCtl ec im ord hv d hu co w h) hc fuel d0 hd
+
+/-- **workflow_checks_error_iff.** In a compiled Workflow a value that fits the upstream type
+    makes a run-time check report its ordinary error exactly when the upstream type is an
+    interface and the value's dynamic type is not assignable downstream – on a data connection
+    (`convert`) and in front of a branch condition (`arriveBranch`), where the condition's own
+    assertion is never the one to fail. -/
+theorem workflow_checks_error_iff (inCtl ec : Bool) (im : Impl) (ht : ImplTrans im) (ord : Ord) (hv : ord.Valid)
+    (d : WfDecl) (hu : d.unmapped = true) (co : COpts) (w : WRunner)
+    (h : (wfCompile (wfEnv inCtl im ord) ec d co).2 = some w) :
+    (∀ s e, (s, e) ∈ w.r.dataEdges → ∀ A B, w.r.outOf s = some A → w.r.inOf e = some B →
+      ∀ dv, dynOk im dv A = true →
+        (convert im w.r s e dv = .typeErr ↔ (A.isIface = true ∧ dynOk im dv B = false))) ∧
+    (∀ p ∈ w.r.branchTable, ∀ A, w.r.outOf p.2.1.src = some A → ∀ dv, dynOk im dv A = true →
+      (arriveBranch im p.2.1.inTy p.2.2 dv = .typeErr ↔ (A.isIface = true ∧ dynOk im dv p.2.1.inTy = false)) ∧
+      arriveBranch im p.2.1.inTy p.2.2 dv ≠ .panic) := by
+  have hr := workflow_compiled_sound inCtl ec im ord hv d hu co w h
+  exact ⟨fun s e he A B ho hi dv hdv => convert_typeErr_iff ht (hr.edges (s, e) he) ho hi hdv,
+    fun p hp A ho dv hdv => arriveBranch_typeErr_iff ht (hr.br _ (mem_branchTable hp)).1 ho hdv⟩
+
+/-! ### the Workflows of the seeded change C07-12, in the model -/
+
+def wlam (k : Key) (i o : Ty) (ins : List WfIn) : WfNode := { key := k, body := .plain false i o, ins }
+
+/-- a(string → `aOut`) ← START;  b(`aOut` → string) ← data of a, no control;  a branch on a with a
+    condition on string and end nodes {b, END};  END ← b -/
+def demoWf (aOut : Ty) : WfDecl :=
+  { inT := .conc 0, outT := .conc 0, stateTy := none,
+    nodes := [wlam "a" (.conc 0) aOut [{ src := START, kind := .input, mapped := none }],
+              wlam "b" aOut (.conc 0) [{ src := "a", kind := .indirect, mapped := none }]],
+    endIns := [{ src := "b", kind := .input, mapped := none }],
+    branches := [{ src := "a", ty := .conc 0, ends := ["b", END] }] }
+
+def demoCode (ret : Dyn) : Code := { body := fun k _ => if k = "a" then ret else 0, pick := fun _ _ _ => "b" }
+
+def demoEnv : Env := wfEnv true menuImpl Ord.id
+
+/-- a produces int, the condition wants string: Compile refuses (the error of the replayed
+    `addBranch` is the stored one) -/
+theorem workflow_demo_concrete_rejected :
+    (wfCompile demoEnv true (demoWf (.conc 1)) copts).1 = .stored .branchMismatch := by decide
+
+/-- a produces `any`: the Workflow compiles with the run-time check installed; a string runs
+    through, an int is an ordinary error – in Invoke and in Stream -/
+theorem workflow_demo_interface_checked :
+    (wfCompile demoEnv true (demoWf .any) copts).1 = .ok ∧
+    ((wfCompile demoEnv true (demoWf .any) copts).2.map fun w =>
+      [wfRun .invoke menuImpl w (demoCode 0) 8 0, wfRun .stream menuImpl w (demoCode 0) 8 0,
+       wfRun .invoke menuImpl w (demoCode 1) 8 0, wfRun .stream menuImpl w (demoCode 1) 8 0])
+      = some [(.ok, false, false), (.ok, false, false), (.typeErr, false, false), (.typeErr, false, false)] := by decide
+
+/-- (negation witness) what the check buys: the same runnable with the run-time check of its
+    branch taken away – what a Compile that does not look at branches without data flow would
+    hand out – panics in the condition's assertion when a returns an int -/
+theorem workflow_unchecked_branch_panics :
+    ((wfCompile demoEnv true (demoWf .any) copts).2.map fun w =>
+      let w' : WRunner := { w with r := { w.r with preBranch := w.r.preBranch.map fun p => (p.1, false) } }
+      [wfRun .invoke menuImpl w' (demoCode 1) 8 0, wfRun .stream menuImpl w' (demoCode 1) 8 0])
+      = some [(.panic, false, false), (.panic, false, false)] := by decide
+
+/-- Invoke reports a failed check when the producer completes, Stream when the stream is read:
+    a(any → any, returns an int) feeds b(string) over a checked edge, and a branch on a picks c
+    instead of b.  Invoke fails; in Stream b is skipped, nobody reads the stream, the run
+    succeeds. -/
+theorem workflow_stream_check_is_lazy :
+    let d : WfDecl :=
+      { inT := .any, outT := .conc 0, stateTy := none,
+        nodes := [wlam "a" .any .any [{ src := START, kind := .input, mapped := none }],
+                  wlam "b" (.conc 0) (.conc 0) [{ src := "a", kind := .indirect, mapped := none }],
+                  wlam "c" .any (.conc 0) [{ src := "b", kind := .dep, mapped := none },
+                                           { src := START, kind := .indirect, mapped := none }]],
+        endIns := [{ src := "c", kind := .input, mapped := none }],
+        branches := [{ src := "a", ty := .any, ends := ["b", "c"] }] }
+    let code : Code := { body := fun k _ => if k = "a" then 1 else 0, pick := fun _ _ _ => "c" }
+    (wfCompile demoEnv true d copts).2.map (fun w =>
+      [wfRun .invoke menuImpl w code 8 0, wfRun .stream menuImpl w code 8 0])
+      = some [(.typeErr, false, false), (.ok, false, false)] := by decide
+
+/-! ## state handlers, input / output keys -/
+
+/-- **state_handler_types_identical.** No run-time check stands between a state handler and its
+    node, so the connection is validated by identity, not by assignability: `addNode` accepts
+    a node with a pre (post) handler only if the handler is declared on the node's input
+    (output) type itself – on `any` for a pass-through node.  (A handler on an interface for a
+    node on a concrete type, or the reverse, is refused although `checkAssignable` would say
+    must / may.) -/
+theorem state_handler_types_identical (b : Builder) (n : NodeSpec)
+    (h : (addNode srcFacts b n).2 = .ok) :
+    (∀ hp, n.pre = some hp → hp.ty = (if n.passthrough then .any else n.inTy)) ∧
+    (∀ hp, n.post = some hp → hp.ty = (if n.passthrough then .any else n.outTy)) := by
+  have hck : addNodeCheck b n = none := by
+    unfold addNode guarded at h
+    split at h
+    · simp at h
+    · split at h
+      · simp at h
+      · rcases hc : addNodeCheck b n with _ | k
+        · rfl
+        · simp [hc] at h
+  unfold addNodeCheck at hck
+  repeat' split at hck
+  all_goals first | (simp at hck; done) | skip
+  all_goals
+    constructor
+    all_goals
+      intro hp hpe
+      simp_all
+  all_goals first | done | (split <;> simp_all)
+
+/-- the declared type of a node that carries `WithInputKey` is `map[string]any` (c5), whatever
+    the lambda or graph inside takes: a string producer in front of it is refused, a map producer
+    accepted, an `any` producer accepted with the run-time check – which then lets a map through
+    and reports an ordinary error for a string. -/
+theorem keyed_node_is_map_typed :
+    let keyed : Op := lam "s" (.conc 5) (.conc 0)   -- how the oracle reads {in: string, inKey: true}
+    (run srcFacts menuImpl Ord.id (Builder.new .graph (.conc 0) (.conc 0) none) [keyed, edge START "s"]).2.1
+      = [.ok, .fresh .edgeMismatch] ∧
+    (run srcFacts menuImpl Ord.id (Builder.new .graph (.conc 5) (.conc 0) none)
+      [keyed, edge START "s", edge "s" END, .compile copts]).2.1 = [.ok, .ok, .ok, .ok] ∧
+    (run srcFacts menuImpl Ord.id (Builder.new .graph .any (.conc 0) none)
+      [keyed, edge START "s", edge "s" END, .compile copts]).2.2.map
+        (fun r => (runGraph menuImpl r { body := fun _ _ => 0, pick := fun _ _ _ => END } 20 5,
+                   runGraph menuImpl r { body := fun _ _ => 0, pick := fun _ _ _ => END } 20 0))
+      = [(.ok, .typeErr)] := by decide
 
 /-! ## defined types over unnamed members of the menu -/
 
